@@ -268,6 +268,11 @@ func ZZ_AUX_step() {
 	zzAssert(!msink.viol, "C12: motion sink sees writes only inside start..stop, no start while open")
 	zzAssert(!csink.viol, "C12: continuous sink sees writes only inside start..stop, no start while open")
 	zzAssert(!ssink.viol, "C12: test sink sees writes only inside start..stop, no start while open")
+	// a motion recording always remains bounded: it is closed as soon as its frame
+	// count reaches the requested length, also after failed writes
+	if mp.isRecording {
+		zzAssert(mp.framesWritten < mp.writeUntil && mp.writeUntil <= h.maxF, "C03/C12: an open motion recording is always due to stop (frame count below the requested length, itself capped by max-secs), also after storage failures")
+	}
 	// extended invariant of the successor
 	zzAssert(msink.open == mp.isRecording, "Inv: motion sink open iff isRecording")
 	if CR {
